@@ -11,9 +11,9 @@ package scen
 //    crash-capable race blocks when run under -race)
 
 import (
-	"github.com/mimiro-io/datahub/internal/service/entity"
 	"encoding/json"
 	"fmt"
+	"github.com/mimiro-io/datahub/internal/service/entity"
 	"math/rand"
 	"os"
 	"sort"
@@ -371,8 +371,49 @@ func runC13Case(ctx *Ctx, c c13Case) {
 	close(start)
 	wg.Wait()
 
+	// store burst: six writers store the same 300 brand-new identifiers at the same moment, into two datasets
+	{
+		var bw sync.WaitGroup
+		go3 := make(chan struct{})
+		var ents []model.Ent
+		for k := 0; k < 300; k++ {
+			u := fmt.Sprintf("http://storeburst.example.org/%s/e%d", id, k)
+			ents = append(ents, model.Ent{ID: u, Props: map[string]any{u + "-p": "v"}, Refs: map[string]any{fmt.Sprintf("http://storeburst.example.org/%s/r%d", id, k%7): fmt.Sprintf("http://storeburst.example.org/%s/e%d", id, (k+1)%300)}})
+		}
+		for g := 0; g < 6; g++ {
+			bw.Add(1)
+			go func(g int) {
+				defer bw.Done()
+				<-go3
+				if err := StoreBatch(core, []string{"da", "db"}[g%2], ents, false); err != nil {
+					mu.Lock()
+					panics = append(panics, "store burst: "+err.Error())
+					mu.Unlock()
+				}
+			}(g)
+		}
+		close(go3)
+		bw.Wait()
+		ctx.Out.Stat("c13_identifiers_stored_by_six_writers_at_once", 300)
+	}
+	// last write before the restart: a transaction that only UPDATES an existing entity and thereby introduces a new
+	// predicate and a new reference target (identifiers nobody has used before)
+	txnPred := fmt.Sprintf("http://txnonly.example.org/%s/pred", id)
+	txnTarget := fmt.Sprintf("http://txnonly.example.org/%s/target", id)
+	txnSubject := fmt.Sprintf("http://storeburst.example.org/%s/e0", id)
+	if err := StoreTxn(core, map[string][]model.Ent{"da": {{ID: txnSubject, Props: map[string]any{txnSubject + "-p": "v2"}, Refs: map[string]any{txnPred: txnTarget}}}}); err != nil {
+		ctx.Out.Viol(id, "C13", "update-transaction-refused", err.Error(), nil, nil, nil)
+	}
+	checkTxnIDs := func(c *hub.Core, when string) {
+		r, err := obs.Related(c.Store, txnSubject, txnPred, false, []string{"da"}, 0)
+		if err != nil || !r.Set()[model.Pair{Pred: txnPred, Other: txnTarget}] {
+			ctx.Out.Viol(id, "C13", "identifiers-of-update-transaction-lost", fmt.Sprintf("%s: an acknowledged transaction that only updated %s introduced predicate %s and target %s; the relation query by that predicate answers %v (err %v)", when, txnSubject, txnPred, txnTarget, model.PairList(r.Set()), err), txnTarget, model.PairList(r.Set()), nil)
+		}
+	}
 	// final burst: every writer asserts a namespace of its own at the same moment, nothing is asserted
-	// afterwards; what is on disk after this must be the complete mapping
+	// afterwards (keep it the LAST thing that touches the namespace state before the restart: a later
+	// assertion would re-persist the complete mapping and hide a lost one); what is on disk after this
+	// must be the complete mapping
 	{
 		var bw sync.WaitGroup
 		go2 := make(chan struct{})
@@ -466,45 +507,6 @@ func runC13Case(ctx *Ctx, c c13Case) {
 				}
 				uriIDs[r.ID][r.InternalID] = true
 			}
-		}
-	}
-	// store burst: six writers store the same 300 brand-new identifiers at the same moment, into two datasets
-	{
-		var bw sync.WaitGroup
-		go3 := make(chan struct{})
-		var ents []model.Ent
-		for k := 0; k < 300; k++ {
-			u := fmt.Sprintf("http://storeburst.example.org/%s/e%d", id, k)
-			ents = append(ents, model.Ent{ID: u, Props: map[string]any{u + "-p": "v"}, Refs: map[string]any{fmt.Sprintf("http://storeburst.example.org/%s/r%d", id, k%7): fmt.Sprintf("http://storeburst.example.org/%s/e%d", id, (k+1)%300)}})
-		}
-		for g := 0; g < 6; g++ {
-			bw.Add(1)
-			go func(g int) {
-				defer bw.Done()
-				<-go3
-				if err := StoreBatch(core, []string{"da", "db"}[g%2], ents, false); err != nil {
-					mu.Lock()
-					panics = append(panics, "store burst: "+err.Error())
-					mu.Unlock()
-				}
-			}(g)
-		}
-		close(go3)
-		bw.Wait()
-		ctx.Out.Stat("c13_identifiers_stored_by_six_writers_at_once", 300)
-	}
-	// last write before the restart: a transaction that only UPDATES an existing entity and thereby introduces a new
-	// predicate and a new reference target (identifiers nobody has used before)
-	txnPred := fmt.Sprintf("http://txnonly.example.org/%s/pred", id)
-	txnTarget := fmt.Sprintf("http://txnonly.example.org/%s/target", id)
-	txnSubject := fmt.Sprintf("http://storeburst.example.org/%s/e0", id)
-	if err := StoreTxn(core, map[string][]model.Ent{"da": {{ID: txnSubject, Props: map[string]any{txnSubject + "-p": "v2"}, Refs: map[string]any{txnPred: txnTarget}}}}); err != nil {
-		ctx.Out.Viol(id, "C13", "update-transaction-refused", err.Error(), nil, nil, nil)
-	}
-	checkTxnIDs := func(c *hub.Core, when string) {
-		r, err := obs.Related(c.Store, txnSubject, txnPred, false, []string{"da"}, 0)
-		if err != nil || !r.Set()[model.Pair{Pred: txnPred, Other: txnTarget}] {
-			ctx.Out.Viol(id, "C13", "identifiers-of-update-transaction-lost", fmt.Sprintf("%s: an acknowledged transaction that only updated %s introduced predicate %s and target %s; the relation query by that predicate answers %v (err %v)", when, txnSubject, txnPred, txnTarget, model.PairList(r.Set()), err), txnTarget, model.PairList(r.Set()), nil)
 		}
 	}
 	checkTxnIDs(core, "before the restart")
